@@ -600,15 +600,48 @@ fn free_vars_in_block(b: &ast::Block) -> HashSet<String> {
     &used - &declared
 }
 
-// Statement that keeps the evaluation of `v` after its binding was removed. Go only
-// accepts calls as expression statements, so other effectful values are kept as `_ = v`.
-fn effect_stmt(v: ast::Expr) -> ast::Stmt {
-    match v {
-        ast::Expr::Call { .. } | ast::Expr::Block { .. } => ast::Stmt::Expr(v),
-        _ => ast::Stmt::Assignment {
+// Go accepts a call as a statement unless the callee is one of the value-only builtins or a
+// conversion: `append(v, x)`, `len(v)`, `int32(n)` on their own are "not used" errors.
+fn call_allowed_as_stmt(func: &ast::Expr) -> bool {
+    match func {
+        ast::Expr::Var { name, .. } => !matches!(
+            name.as_str(),
+            "append"
+                | "cap"
+                | "len"
+                | "make"
+                | "new"
+                | "int8"
+                | "int16"
+                | "int32"
+                | "int64"
+                | "uint8"
+                | "uint16"
+                | "uint32"
+                | "uint64"
+                | "float32"
+                | "float64"
+                | "string"
+        ),
+        _ => true,
+    }
+}
+
+// Statement that evaluates `v` and drops its value. Go only accepts (most) calls as expression
+// statements, so other values are kept as `_ = v`.
+pub(crate) fn effect_stmt(v: ast::Expr) -> ast::Stmt {
+    let as_stmt = match &v {
+        ast::Expr::Call { func, .. } => call_allowed_as_stmt(func),
+        ast::Expr::Block { .. } => true,
+        _ => false,
+    };
+    if as_stmt {
+        ast::Stmt::Expr(v)
+    } else {
+        ast::Stmt::Assignment {
             name: "_".to_string(),
             value: v,
-        },
+        }
     }
 }
 
